@@ -30,9 +30,12 @@ pub trait MapValidVec<T: IsNone>: Vec1View<T> {
         match n {
             n if n > 0 => Box::new(
                 std::iter::repeat_n(value, n_abs)
-                    .chain(self.titer().take(len - n_abs))
-                    .zip(self.titer())
-                    .map(|(a, b)| b - a)
+                    .chain(
+                        self.titer()
+                            .take(len - n_abs)
+                            .zip(self.titer().skip(n_abs))
+                            .map(|(a, b)| b - a),
+                    )
                     .to_trust(len),
             ),
             n if n < 0 => Box::new(
